@@ -275,3 +275,18 @@ Lemma hav_model_is_generated : forall dcrad1 dcrad2 deldec delra,
   hav_model (deldec / 2) (delra / 2) (cos dcrad1) (cos dcrad2) 0 0 0 0 0 0 0 0 0 0 0
   = gcirc_sindis2 dcrad1 dcrad2 deldec delra.
 Proof. intros. unfold hav_model, gcirc_sindis2. cbv zeta. rewrite !Rplus_0_r, !Rmult_1_r. ring. Qed.
+
+Lemma float_model_stable :
+  (forall x y c1 c2 dx dy d1 d2 d3 d4 d5 d6 d7 d8 d9,
+    Rabs x <= PI / 2 -> Rabs y <= PI / 2 -> 0 <= c1 -> 0 <= c2 ->
+    Rabs dx <= eps -> Rabs dy <= eps -> Rabs d1 <= eps -> Rabs d2 <= eps -> Rabs d3 <= eps -> Rabs d4 <= eps ->
+    Rabs d5 <= eps -> Rabs d6 <= eps -> Rabs d7 <= eps -> Rabs d8 <= eps -> Rabs d9 <= eps ->
+    Rabs (hav_model x y c1 c2 dx dy d1 d2 d3 d4 d5 d6 d7 d8 d9 - hav_exact x y c1 c2) <= 12 * eps * hav_exact x y c1 c2) /\
+  (forall x y c1 c2 dx dy d1 d2 d3 d4 d5 d6 d7 d8 d9 d10 d11,
+    Rabs x <= PI / 2 -> Rabs y <= PI / 2 -> 0 <= c1 -> 0 <= c2 -> hav_exact x y c1 c2 <= 1/2 ->
+    Rabs dx <= eps -> Rabs dy <= eps -> Rabs d1 <= eps -> Rabs d2 <= eps -> Rabs d3 <= eps -> Rabs d4 <= eps ->
+    Rabs d5 <= eps -> Rabs d6 <= eps -> Rabs d7 <= eps -> Rabs d8 <= eps -> Rabs d9 <= eps -> Rabs d10 <= eps ->
+    Rabs d11 <= eps ->
+    let exact := 2 * asin (sqrt (hav_exact x y c1 c2)) in
+    Rabs (dis_model (hav_model x y c1 c2 dx dy d1 d2 d3 d4 d5 d6 d7 d8 d9) d10 d11 - exact) <= 32 * eps * exact).
+Proof. split. exact hav_backward_stable. exact gcirc_model_stable. Qed.
